@@ -1468,7 +1468,7 @@ func init() {
 			c18Check(c, cs)
 		},
 		// free-running complement: goroutines that each own their model objects (see harness/racepass)
-		Post: func(m *mc.Master) { m.RacePass("models") },
+		Post: func(m *mc.Master) { m.RacePass("models"); m.RacePass("first/model-") },
 		Vacuity: func(tier string, t *mc.Totals) error {
 			if t.Evaluations < 300000 {
 				return fmt.Errorf("only %d transition matrices evaluated", t.Evaluations)
